@@ -37,7 +37,14 @@ fn valid(ops: &[Value]) -> bool {
     true
 }
 
-fn check(ops: &[Value], strict: bool) -> Option<Value> {
+/// KNOWN VIOLATION ON THE SHIPPED CODE (kept out of the default scope so that it does not mask other inputs; searched
+/// when the suspected function is get_head / get_head_locked): when the table that merges divergent heads comes out
+/// byte-identical to one of the merged heads (content-addressed name collision: e.g. two writers start from the same
+/// small head, one saves {x}, the other {x', y}; both saves and the merge squash to full tables), `get_head_locked`
+/// first records the merged table as head and then removes "the other heads" -- i.e. the merged table itself. The heads
+/// directory is left EMPTY, the next loader creates a new empty table and every saved entry is gone. Replay:
+///   {"kind":"C21","strict":false,"known":true,"ops":[["save",0,0,[[[0,1],[1]],[[1,2],[]]]],["save",0,0,[[[0,1],[2]],[[1,2],[]]]],["head",0]]}
+fn check(ops: &[Value], strict: bool, report_known: bool) -> Option<Value> {
     let r = catch(AssertUnwindSafe(|| {
         let dir = tempfile::Builder::new().prefix("cex-c21-").tempdir().unwrap();
         let mut stores = vec![TableStore::init(dir.path().to_path_buf(), 2)];
@@ -91,6 +98,17 @@ fn check(ops: &[Value], strict: bool) -> Option<Value> {
                             for c in cands { if c != v { dom.entry(k.clone()).or_default().insert(c.clone()); } }
                         }
                     }
+                    // what a fresh loader sees now must be the same (reloading from disk never changes a lookup)
+                    let merged_many = heads.len() > 1;
+                    let collides = merged_many && heads.contains_key(head.name());
+                    if merged_many {
+                        let fresh = TableStore::load(dir.path().to_path_buf(), 2).get_head().unwrap();
+                        let seen = read(&fresh, &universe);
+                        if seen != got {
+                            if collides && !report_known { return None; } // the known violation above: stop this sequence
+                            return Some(json!({"observed": format!("step {step} {op}: get_head() merged {} heads and read {got:?}, but a freshly loaded store now reads {seen:?}", heads.len()), "required": "loading the table returns every entry any completed save recorded; reloading never changes a lookup"}));
+                        }
+                    }
                     heads.clear();
                     heads.insert(head.name().to_string(), (got.clone(), dom.clone()));
                     tables.push(head); views.push(got); doms.push(dom);
@@ -142,20 +160,22 @@ pub fn run(pid: &str, func: &str, replay: Option<Value>, seed: u64) -> Value {
     crate::p_repo::fast_env();
     let name = if func.is_empty() { "MutableTable::merge_in / save_table / get_head" } else { func };
     let strict_cli = func.contains("strict");
+    let known_cli = func.contains("get_head");
     if let Some(inp) = replay {
         let ops: Vec<Value> = inp.get("ops").and_then(|o| o.as_array()).cloned().unwrap_or_default();
         if !valid(&ops) { return none("replay input is not a valid C21 op sequence"); }
         let strict = strict_cli || inp.get("strict").and_then(|b| b.as_bool()).unwrap_or(false);
-        return match check(&ops, strict) { Some(r) => hit(inp, r, name), None => none("replayed input satisfies the C21 executable contract") };
+        let known = known_cli || inp.get("known").and_then(|b| b.as_bool()).unwrap_or(false);
+        return match check(&ops, strict, known) { Some(r) => hit(inp, r, name), None => none("replayed input satisfies the C21 executable contract") };
     }
-    let input = |ops: &[Value]| json!({"kind": "C21", "ops": ops, "strict": strict_cli});
+    let input = |ops: &[Value]| json!({"kind": "C21", "ops": ops, "strict": strict_cli, "known": known_cli});
     // exhaustive: all sequences of <= 3 ops over 2 keys; a save takes any existing handle (current or stale) and one of
     // 4 entry sets with fresh values
     let (k1, k2) = (vec![0u8, 1], vec![1u8, 2]);
     let mut cnt = 0;
     let mut stack: Vec<(Vec<Value>, u64, u64, u8)> = vec![(vec![], 1, 1, 1)];
     while let Some((ops, handles, stores, ctr)) = stack.pop() {
-        if !ops.is_empty() { cnt += 1; if let Some(r) = check(&ops, strict_cli) { return hit(input(&ops), r, name); } }
+        if !ops.is_empty() { cnt += 1; if let Some(r) = check(&ops, strict_cli, known_cli) { return hit(input(&ops), r, name); } }
         if ops.len() == 3 { continue; }
         for t in 0..handles {
             for es in [json!([]), json!([[k1, [ctr]]]), json!([[k2, [ctr, ctr]]]), json!([[k1, [ctr]], [k2, []]])] {
@@ -172,7 +192,7 @@ pub fn run(pid: &str, func: &str, replay: Option<Value>, seed: u64) -> Value {
         let len = 2 + rng.below(14) as usize;
         let ops = random_ops(&mut rng, len);
         rnd += 1;
-        if let Some(r) = check(&ops, strict_cli) { return hit(input(&ops), r, name); }
+        if let Some(r) = check(&ops, strict_cli, known_cli) { return hit(input(&ops), r, name); }
     }
-    none(&format!("scope exhausted: all {cnt} sequences of <= 3 ops (save from any current or stale handle with one of 4 entry sets over 2 keys, get_head, fresh TableStore::load); then {rnd} seeded random sequences of <= 15 ops (<= 12 entries per save over 2/6/27 keys, values of 0-3 bytes, stale parents, several store instances); after every save the table reads parent + new entries, after every get_head every key reads the value of one of the heads on disk (exactly, for a single head), a fresh load reads the same{}, seed {seed}", if strict_cli { "; strict: merged value never one that was causally overwritten" } else { "" }))
+    none(&format!("scope exhausted: all {cnt} sequences of <= 3 ops (save from any current or stale handle with one of 4 entry sets over 2 keys, get_head, fresh TableStore::load); then {rnd} seeded random sequences of <= 15 ops (<= 12 entries per save over 2/6/27 keys, values of 0-3 bytes, stale parents, several store instances); after every save the table reads parent + new entries, after every get_head every key reads the value of one of the heads on disk (exactly, for a single head), a fresh load reads the same{}{}, seed {seed}", if known_cli { "" } else { "; sequences that run into the known get_head_locked head-removal violation (see source / report) are cut there" }, if strict_cli { "; strict: merged value never one that was causally overwritten" } else { "" }))
 }
